@@ -94,8 +94,14 @@ package ebpf
 //@ func (l *Loader) AddCircuitIDSubscriber
 //@   modifies nothing
 
+// The circuit_id_map key is the 64-bit FNV-1a hash of ALL bytes of the circuit-id (the function the
+// XDP program computes over the option bytes): fnv1a64 is the hash/fnv recurrence.
 //@ func HashCircuitID
 //@   modifies nothing
+//@   ensures result == fnv1a64(circuitID, len(circuitID))
+
+//@ loop HashCircuitID#1
+//@   invariant hash == fnv1a64(circuitID, ridx)
 
 // IPv4 words stored in map values (PoolAssignment.AllocatedIP, IPPool.Network /
 // Gateway / DNS*, ServerConfig.ServerIP) are copied by bpf/dhcp_fastpath.c into
